@@ -94,7 +94,15 @@ def walk(name, path):
     found = None
     for k in range(len(parts)):
         full = '.'.join(parts[:k + 1])
-        spec = PathFinder.find_spec(full, search)
+        try:
+            spec = PathFinder.find_spec(full, search)
+        except (KeyError, AttributeError):
+            # only a PEP 420 portion below a package gets here: building its _NamespacePath looks the
+            # parent up in sys.modules (never imported: KeyError; or another, loaded module of that
+            # name without __path__: AttributeError)
+            if k == 0:
+                raise
+            return Namespace(name)
         if spec is None:
             return Absent(name, k, 'missing', found)
         if spec.origin is None or spec.loader is None or \
@@ -205,6 +213,18 @@ class TreeMon(object):
                 return idx
         return None
 
+    def bare_dir_before(self, name, found):
+        """is there, in a path entry EARLIER than the one importlib takes ``name`` (or a prefix of it)
+        from, a directory of that name without __init__.py?  -> label suffix of that mechanism."""
+        if not isinstance(found, Found) or found.entry is None:
+            return ''
+        parts = name.split('.')
+        for e in self.path[:found.entry]:
+            d = os.path.join(e, parts[0])
+            if os.path.isdir(d) and not os.path.exists(os.path.join(d, '__init__.py')):
+                return ':bare-directory-of-that-name-in-an-earlier-path-entry'
+        return ''
+
     # -- supp side ----------------------------------------------------------------------
     def supp_get(self, fn, *args):
         from supp.module import SourceModule, ImportedModule
@@ -303,7 +323,7 @@ class TreeMon(object):
                     self.violation('imported-instead-of-source', '%s returned the loaded module %r, importlib loads %s' % (
                         call, getattr(val.module, '__name__', val.module), self.show(orc.origin)), query)
                 else:
-                    self.violation('importerror-on-found', '%s raised ImportError, importlib loads %s' % (
+                    self.violation('importerror-on-found' + self.bare_dir_before(name, orc), '%s raised ImportError, importlib loads %s' % (
                         call, self.show(orc.origin)), query)
             else:       # extension
                 if tag == 'imported':
@@ -318,7 +338,7 @@ class TreeMon(object):
                     self.violation('source-instead-of-compiled', '%s analyses %s, importlib loads %s' % (
                         call, self.show(val.filename), orc.origin), query)
                 else:
-                    self.violation('importerror-on-found', '%s raised ImportError, importlib loads %s' % (
+                    self.violation('importerror-on-found' + self.bare_dir_before(name, orc), '%s raised ImportError, importlib loads %s' % (
                         call, orc.origin), query)
             return
 
@@ -596,7 +616,7 @@ class TreeMon(object):
                 p.count('agree:from-import-of-absent-raises-ImportError')
                 return
             if form == 'from-import':
-                self.violation('assist-importerror-on-found', '%s raised ImportError, importlib: %s' % (
+                self.violation('assist-importerror-on-found' + self.bare_dir_before(absname, orc), '%s raised ImportError, importlib: %s' % (
                     call, self.describe(orc)), query)
             else:
                 self.violation('assist-import-line-raises:ImportError', '%s raised %r' % (call, res), query)
@@ -616,7 +636,7 @@ class TreeMon(object):
             p.count('proposal_sets_with_required_children')
         missing = sorted(must - names)
         if missing:
-            self.violation('proposals-miss-enumerable-child', '%s lacks %s which pkgutil.iter_modules(%s) enumerates' % (
+            self.violation('proposals-miss-enumerable-child' + (self.bare_dir_before(absname, orc) if absname else ''), '%s lacks %s which pkgutil.iter_modules(%s) enumerates' % (
                 call, missing[:5], self.describe(orc) if orc else 'roots + sys.path'), query)
         if form == 'from-import':
             return                      # module attributes are legitimately mixed in
@@ -726,7 +746,10 @@ class TreeMon(object):
         for root in range(len(tree['roots'])):
             for rel in sorted(tree['roots'][root]):
                 if not rel.endswith('.py'):
-                    continue            # no text to edit in a sourceless / compiled module
+                    continue            # no text to edit in a sourceless / compiled module, a data file
+                if gen_tree.under_bare(tree, root, rel):
+                    self.p.count('filtered:relative-from-stray-file-in-a-bare-directory')
+                    continue
                 name, kind = gen_tree.dotted_of(rel)
                 fn = os.path.join(self.dirs[root], *rel.split('/'))
                 orc = self.walk(name)
@@ -751,7 +774,7 @@ class TreeMon(object):
         anyfile = None
         for root in range(len(tree['roots'])):
             for rel in sorted(tree['roots'][root]):
-                if rel.endswith('.py'):
+                if rel.endswith('.py') and not gen_tree.under_bare(tree, root, rel):
                     anyfile = (root, rel)
                     break
             if anyfile:
@@ -795,8 +818,9 @@ def environment():
 
 def tree_features(tree):
     fb = gen_tree.file_backed(tree)
-    multi = [n for n, v in fb.items() if len({i for i, _, _ in v}) > 1]
-    flip = [n for n, v in fb.items() if len({k for _, _, k in v}) > 1]
+    real = {n: [x for x in v if x[2] != 'under-bare-directory'] for n, v in fb.items()}
+    multi = [n for n, v in real.items() if len({i for i, _, _ in v}) > 1]
+    flip = [n for n, v in real.items() if len({k for _, _, k in v}) > 1]
     depth = max(len(n.split('.')) for n in fb)
     std = set(gen_tree.COMPILED) | set(gen_tree.STDLIB_PKGS) | set(gen_tree.STDLIB_MODS)
     decoy = [n for n in fb if n.rpartition('.')[2] in std]
@@ -804,8 +828,31 @@ def tree_features(tree):
     return {'sourceless': sum(1 for v in fb.values() for _, _, k in v if k == 'sourceless'),
             'ext': sum(1 for v in fb.values() for _, _, k in v if k == 'compiled-link'),
             'ns_shadow': sum(1 for v in fb.values() if {k for _, _, k in v} & ns and 'package' in {k for _, _, k in v}),
+            'bare_top': [b for b in tree.get('bare', []) if '/' not in b[1]],
+            'bare_nested': [b for b in tree.get('bare', []) if '/' in b[1]],
             'roots': len(tree['roots']), 'multi': len(multi), 'flip': len(flip), 'depth': depth,
             'decoys': len(decoy), 'files': sum(len(r) for r in tree['roots'])}
+
+
+def bare_position(part, tree, order, ft):
+    """where, under this order, each top-level bare directory lies relative to the regular module/package of
+    its name (the standard library comes after every root)."""
+    before = after = 0
+    for ri, name in ft['bare_top']:
+        pos = order.index(ri)
+        regular = [order.index(k) for k, files in enumerate(tree['roots']) if k != ri and
+                   any(name + sfx in files for sfx in ('/__init__.py', '.py', '.pyc', '.@so'))]
+        first = min(regular) if regular else len(order)          # else: only the standard library has it
+        if pos < first:
+            before += 1
+        else:
+            after += 1
+    if before:
+        part.count('layouts_with_bare_directory_BEFORE_the_regular_package_or_module')
+    if after:
+        part.count('layouts_with_bare_directory_AFTER_the_regular_package_or_module')
+    if ft['bare_nested']:
+        part.count('layouts_with_bare_directory_inside_a_package(namespace: filtered)')
 
 
 def work_trees(arg):
@@ -826,6 +873,7 @@ def work_trees(arg):
         part.count('trees_with_module_vs_package_flip', 1 if ft['flip'] else 0)
         part.count('trees_with_stdlib_decoy', 1 if ft['decoys'] else 0)
         part.count('trees_with_sourceless_module', 1 if ft['sourceless'] else 0)
+        part.count('trees_with_bare_directory_decoy', 1 if ft['bare_top'] or ft['bare_nested'] else 0)
         part.count('trees_with_real_extension_in_a_root', 1 if ft['ext'] else 0)
         part.count('trees_with_non_source_module_shadowing_a_package_of_another_root', 1 if ft['ns_shadow'] else 0)
         base = tempfile.mkdtemp(prefix='vf-')
@@ -838,6 +886,7 @@ def work_trees(arg):
             fresh_finders()
             for order in gen_tree.orders(tree):
                 part.count('tree_orders')
+                bare_position(part, tree, order, ft)
                 nontrivial = (ft['roots'] >= 2 and ft['multi'] > 0) or ft['depth'] >= 3
                 part.case(['tree', seed, i, order], nontrivial=nontrivial)
                 mon = TreeMon(part, tree, order, dirs, budget)
@@ -845,7 +894,7 @@ def work_trees(arg):
                 env['selfcheck'] = (i == start and order == gen_tree.orders(tree)[-1])
                 mon.run_all(random.Random('%s:C07:names:%d' % (seed, i)), env)
                 if len(part.samples) < 1 and ft['multi'] and ft['roots'] >= 2:
-                    part.sample({'tree': {('r%d' % k): sorted(r) for k, r in enumerate(tree['roots'])}, 'order': order})
+                    part.sample({'tree': {('r%d' % k): sorted(r) for k, r in enumerate(tree['roots'])}, 'bare': tree.get('bare', []), 'order': order})
         finally:
             shutil.rmtree(base, ignore_errors=True)
             fresh_finders()
@@ -884,7 +933,9 @@ def main(run):
                  'proposal_sets_compared', 'proposal_sets_with_required_children',
                  'trees_with_same_name_in_two_roots', 'trees_with_module_vs_package_flip', 'trees_with_stdlib_decoy',
                  'relative_history_answers_compared', 'proposal_sets_after_non_source_module',
-                 'trees_with_non_source_module_shadowing_a_package_of_another_root'),
+                 'trees_with_non_source_module_shadowing_a_package_of_another_root',
+                 'layouts_with_bare_directory_BEFORE_the_regular_package_or_module',
+                 'layouts_with_bare_directory_AFTER_the_regular_package_or_module'),
         assumptions=[
             'oracle = importlib.machinery.PathFinder.find_spec walked per component over roots + sys.path of the worker '
             'process, importlib.util.resolve_name, pkgutil.iter_modules (CPython %d.%d); meta-path finders other than '
@@ -901,6 +952,10 @@ def main(run):
             'domain filters (counted under filtered:*): PEP 420 portions met on the walk, names that resolve to a sourceless/other loader, '
             'relative specifiers from shadowed files; generated trees never contain namespace directories, x.py next to '
             'x/, two module files of one stem in a directory, nested roots, or fake extension files',
+            'bare directories (no __init__.py; empty, data files, stray .py files) are decoys next to a regular module/package '
+            'of the same name in another root or in the standard library, so importlib never makes a top-level namespace '
+            'package of them; a bare directory inside a regular package IS a namespace portion for importlib and every name '
+            'through it is filtered; no relative query is made from a stray file of a bare directory',
         ],
         exhaustive=False)
 
